@@ -8,6 +8,7 @@
 -/
 import NutsModel.C07.Net
 import NutsModel.C15.Authn
+import NutsModel.C15.Streams
 import NutsModel.Facts.C15
 import NutsProofs.Lemmas.C15
 open Nuts.Proto Nuts Nuts.Proto.L Nuts.C15.L
@@ -635,5 +636,265 @@ example : HonestPal exEnv (fun d => d ++ "#k") (fun d => if d = "A" then 0 else 
       simp [this]
 example : (authenticate { parseHost := fun _ => some "node.example.com", verifyHostname := fun dns h => dns.contains h }
     "did:nuts:x" { key := 1 } { cert := some ["node.example.com"], endpoint := some "grpc://node.example.com:5555" }).1.authenticated = true := by decide
+
+
+/-! ### Deepening round 2: how the identity on a connection comes about for inbound streams
+    (grpc/util.go readMetadata, connection_manager.go handleInboundStream, connection_list.go getOrRegister, connection.go
+    registerStream). The v2 handlers decide on `connection.Peer()`; a stream joins an EXISTING connection when peer ID and node
+    DID match. Invariant over ALL histories of stream arrivals and ends: every stream sits on a connection whose identity its own
+    set-up (its own headers, its own certificate) established. -/
+
+/-- a stream record whose remembered identity is what ITS OWN set-up established -/
+def StreamOK (E : InEnv) (s : StreamRec) : Prop :=
+  (cmAuthenticate E.kind E.auth s.claimed { key := 0 } s.auth).2 = false ∧
+  s.peer = (cmAuthenticate E.kind E.auth s.claimed { key := 0 } s.auth).1 ∧
+  s.auth.endpoint = E.resolve s.claimed
+
+def ConnOK (E : InEnv) (c : Conn) : Prop :=
+  (c.peer.authenticated = true ↔ c.peer.did ≠ "") ∧
+  ∀ s ∈ c.streams, StreamOK E s ∧ s.peer.did = c.peer.did ∧ s.peer.authenticated = c.peer.authenticated
+
+def ConnsOK (E : InEnv) (cs : List Conn) : Prop := ∀ c ∈ cs, ConnOK E c
+
+theorem cmAuthenticate_wf (k : AuthKind) (e : AuthEnv) (claimed : String) (i : AuthIn)
+    (h : (cmAuthenticate k e claimed { key := 0 } i).2 = false) :
+    ((cmAuthenticate k e claimed { key := 0 } i).1.authenticated = true ↔
+      (cmAuthenticate k e claimed { key := 0 } i).1.did ≠ "") ∧
+    ((cmAuthenticate k e claimed { key := 0 } i).1.did = "" ∨ (cmAuthenticate k e claimed { key := 0 } i).1.did = claimed) := by
+  unfold cmAuthenticate at h ⊢
+  by_cases hc : (claimed == "") = true
+  · simp [hc]
+  · simp only [hc, Bool.false_eq_true, if_false] at h ⊢
+    have hne : claimed ≠ "" := by simpa using hc
+    by_cases hok : ((authenticateWith k e claimed { key := 0 } i).2 == "ok") = true
+    · simp only [hok, if_true] at h ⊢
+      cases k with
+      | dummy => simp [authenticateWith, dummyAuthenticate, hne]
+      | tls =>
+        have hok' : (authenticate e claimed { key := 0 } i).2 = "ok" := by simpa [authenticateWith] using hok
+        have := (authn_sound e claimed { key := 0 } i).2.1 hok'
+        simp only [authenticateWith]
+        rw [this]
+        simp [hne]
+    · simp [hok] at h
+
+theorem attach_ok (E : InEnv) (id did : String) (r : StreamRec) (fresh : Conn)
+    (hr : StreamOK E r) (hd : r.peer.did = did) (hf : ConnOK E fresh) :
+    ∀ cs, ConnsOK E cs → ConnsOK E (attach id did r fresh cs).1 := by
+  intro cs
+  induction cs with
+  | nil => intro _ c hc; simp [attach] at hc; subst hc; exact hf
+  | cons c rest ih =>
+    intro h
+    have hc0 : ConnOK E c := h c (by simp)
+    have hrest : ConnsOK E rest := fun x hx => h x (by simp [hx])
+    unfold attach
+    by_cases hm : (c.id == id && c.peer.did == did) = true
+    · simp only [hm, if_true]
+      by_cases hp : hasProto c r.proto = true
+      · simp only [hp, if_true]; exact h
+      · simp only [hp, Bool.false_eq_true, if_false]
+        intro x hx
+        rcases List.mem_cons.mp hx with hx | hx
+        · subst hx
+          have hdid : c.peer.did = did := by
+            have := (Bool.and_eq_true _ _).mp hm
+            simpa using this.2
+          have hwf := cmAuthenticate_wf E.kind E.auth r.claimed r.auth hr.1
+          rw [← hr.2.1] at hwf
+          refine ⟨hc0.1, ?_⟩
+          intro s hs
+          rcases List.mem_append.mp hs with hs | hs
+          · exact hc0.2 s hs
+          · have : s = r := by simpa using hs
+            subst this
+            refine ⟨hr, by rw [hd, hdid], ?_⟩
+            have e1 : s.peer.did = c.peer.did := by rw [hd, hdid]
+            rw [Bool.eq_iff_iff, hwf.1, hc0.1, e1]
+        · exact hrest x hx
+    · simp only [hm, Bool.false_eq_true, if_false]
+      intro x hx
+      rcases List.mem_cons.mp hx with hx | hx
+      · subst hx; exact hc0
+      · exact ih hrest x hx
+
+theorem handleInbound_ok (E : InEnv) (cs : List Conn) (s : StreamIn) (h : ConnsOK E cs) :
+    ConnsOK E (handleInbound E cs s).1 := by
+  unfold handleInbound
+  split
+  · rename_i pid claimed _
+    by_cases hf : (streamAuth E claimed s).2 = true
+    · simp only [hf, if_true]; exact h
+    · have hf' : (streamAuth E claimed s).2 = false := by simpa using hf
+      simp only [hf', Bool.false_eq_true, if_false]
+      have hr : StreamOK E (streamRec E claimed s) := ⟨hf', rfl, rfl⟩
+      have hwf := cmAuthenticate_wf E.kind E.auth claimed (streamAuthIn E claimed s) hf'
+      have hfresh : ConnOK E (freshConn E pid claimed s) := by
+        refine ⟨hwf.1, ?_⟩
+        intro x hx
+        have : x = streamRec E claimed s := by simpa [freshConn] using hx
+        subst this
+        exact ⟨hr, rfl, rfl⟩
+      have := attach_ok E pid _ _ _ hr rfl hfresh cs h
+      split
+      · exact h
+      · exact this
+  · exact h
+
+theorem closeStream_ok (E : InEnv) (cs : List Conn) (sid : Nat) (h : ConnsOK E cs) : ConnsOK E (closeStream cs sid) := by
+  intro c hc
+  exact h c (List.mem_filter.mp hc).1
+
+theorem runEvs_ok (E : InEnv) (evs : List Ev) : ∀ cs, ConnsOK E cs → ConnsOK E (runEvs E cs evs) := by
+  induction evs with
+  | nil => intro cs h; exact h
+  | cons ev rest ih =>
+    intro cs h
+    simp only [runEvs, List.foldl_cons]
+    apply ih
+    cases ev with
+    | open_ s => exact handleInbound_ok E cs s h
+    | close sid => exact closeStream_ok E cs sid h
+
+
+
+/-- **C15, clause 1, connection state.** For every history of inbound streams and stream ends (from the empty connection list),
+    every stream attached to a connection passed the connection manager's `authenticate` ITSELF and the identity that
+    established (node DID, authenticated flag) is exactly the identity of the connection the v2 handlers will read. -/
+theorem inbound_streams_share_connection_identity (E : InEnv) (evs : List Ev) (c : Conn) (hc : c ∈ runEvs E [] evs)
+    (s : StreamRec) (hs : s ∈ c.streams) :
+    (cmAuthenticate E.kind E.auth s.claimed { key := 0 } s.auth).2 = false ∧
+    s.peer = (cmAuthenticate E.kind E.auth s.claimed { key := 0 } s.auth).1 ∧
+    s.auth.endpoint = E.resolve s.claimed ∧
+    s.peer.did = c.peer.did ∧ s.peer.authenticated = c.peer.authenticated := by
+  have h := runEvs_ok E evs [] (by intro c hc; cases hc) c hc
+  have := h.2 s hs
+  exact ⟨this.1.1, this.1.2.1, this.1.2.2, this.2.1, this.2.2⟩
+
+/-- with the TLS authenticator: every stream on an authenticated connection claimed the connection's DID and presented
+    ITS OWN certificate valid for the host of the NutsComm endpoint of that DID (no stream rides on another stream's proof) -/
+theorem stream_on_authenticated_connection_proved_it (E : InEnv) (hk : E.kind = .tls) (evs : List Ev) (c : Conn)
+    (hc : c ∈ runEvs E [] evs) (ha : c.peer.authenticated = true) (s : StreamRec) (hs : s ∈ c.streams) :
+    s.claimed = c.peer.did ∧ s.claimed ≠ "" ∧
+    ∃ dns ep host, s.auth.cert = some dns ∧ E.resolve c.peer.did = some ep ∧ E.auth.parseHost ep = some host ∧
+      E.auth.verifyHostname dns host = true := by
+  obtain ⟨_, hp, hep, hd, hau⟩ := inbound_streams_share_connection_identity E evs c hc s hs
+  rw [hk] at hp
+  have h1 : (cmAuthenticate .tls E.auth s.claimed { key := 0 } s.auth).1.authenticated = true := by
+    rw [← hp, hau, ha]
+  obtain ⟨hne, hdid, dns, ep, host, h2, h3, h4, h5⟩ :=
+    connection_authenticated_only_via_authenticator E.auth s.claimed { key := 0 } s.auth rfl h1
+  have hcl : s.claimed = c.peer.did := by rw [← hd, hp, hdid]
+  refine ⟨hcl, hne, dns, ep, host, h2, ?_, h4, h5⟩
+  rw [← hcl, ← hep, h3]
+
+/-- **C15, end to end (stream set-up -> payload release).** Composition of the connection-state invariant with
+    `private_payload_release_sound`: whatever streams arrived and ended, if the node answers a message handled with the identity of
+    connection `c` with the payload of a PAL-bearing transaction, then the DID of `c` is on the list this node decrypts AND every
+    stream on `c` proved that DID with its own certificate. -/
+theorem inbound_stream_to_release_sound (E : InEnv) (hk : E.kind = .tls) (evs : List Ev) (c : Conn)
+    (hc : c ∈ runEvs E [] evs) (cfg : Cfg) (env : Env) (n : Node) (key : Nat) (m : Msg)
+    (o : Nat × Msg) (ho : o ∈ allOut env (handle cfg env n { c.peer with key := key } m)) (ref : Ref) (p : Payload)
+    (hpl : o.2 = .payload ref (some p)) :
+    ∃ tx, getTx n.dag ref = some tx ∧ readPayload n tx.payloadHash = some p ∧
+      (tx.pal ≠ [] →
+        (∃ dids, decryptPAL env n tx.pal = .pal dids ∧ c.peer.did ∈ dids) ∧
+        ∀ s ∈ c.streams, s.claimed = c.peer.did ∧
+          ∃ dns ep host, s.auth.cert = some dns ∧ E.resolve c.peer.did = some ep ∧ E.auth.parseHost ep = some host ∧
+            E.auth.verifyHostname dns host = true) := by
+  obtain ⟨_, _, tx, h1, h2, h3⟩ := private_payload_release_sound cfg env n { c.peer with key := key } m o ho ref p hpl
+  refine ⟨tx, h1, h2, ?_⟩
+  intro hpal
+  obtain ⟨ha, dids, hd, hmem⟩ := h3 hpal
+  refine ⟨⟨dids, hd, hmem⟩, ?_⟩
+  intro s hs
+  obtain ⟨a, _, b⟩ := stream_on_authenticated_connection_proved_it E hk evs c hc ha s hs
+  exact ⟨a, b⟩
+
+/-- a refused stream (bad metadata, failed authentication, protocol already connected) leaves the connection list untouched -/
+theorem refused_inbound_stream_changes_nothing (E : InEnv) (cs : List Conn) (s : StreamIn)
+    (h : ∀ i, (handleInbound E cs s).2 ≠ .joined i) : (handleInbound E cs s).1 = cs := by
+  unfold handleInbound at h ⊢
+  split
+  · rename_i pid claimed heq
+    simp only [heq] at h
+    by_cases hf : (streamAuth E claimed s).2 = true
+    · simp [hf]
+    · simp only [hf, Bool.false_eq_true, if_false] at h ⊢
+      split
+      · rfl
+      · rename_i i hi
+        exfalso
+        have := h i
+        simp [hi] at this
+  · rfl
+
+/-- `readMetadata` accepts only ONE peer ID value (non-empty after trimming) and at most ONE node DID value, which must parse:
+    a second header value (e.g. appended by a proxy after a client-supplied one) never selects an identity -/
+theorem readMetadata_ok_needs_single_values (pd : String → Option String) (pids dids : List String) (pid d : String)
+    (h : readMetadata pd pids dids = .ok (pid, d)) :
+    (∃ v, pids = [v] ∧ pid = trimSpace v) ∧ pid ≠ "" ∧
+    ((dids = [] ∧ d = "") ∨ ∃ w, dids = [w] ∧ ((trimSpace w = "" ∧ d = "") ∨ (trimSpace w ≠ "" ∧ pd (trimSpace w) = some d))) := by
+  unfold readMetadata at h
+  match pids, h with
+  | [], h => simp [headerValue] at h
+  | _ :: _ :: _, h => simp [headerValue] at h
+  | [v], h =>
+    simp only [headerValue] at h
+    by_cases he : (trimSpace v == "") = true
+    · simp [he] at h
+    · simp only [he, Bool.false_eq_true, if_false] at h
+      match dids, h with
+      | _ :: _ :: _, h => simp at h
+      | [], h =>
+        simp at h
+        exact ⟨⟨v, rfl, h.1.symm⟩, by rw [← h.1]; simpa using he, Or.inl ⟨rfl, h.2⟩⟩
+      | [w], h =>
+        simp only at h
+        by_cases hw : (trimSpace w == "") = true
+        · simp [hw] at h
+          exact ⟨⟨v, rfl, h.1.symm⟩, by rw [← h.1]; simpa using he, Or.inr ⟨w, rfl, Or.inl ⟨by simpa using hw, h.2⟩⟩⟩
+        · simp only [hw, Bool.false_eq_true, if_false] at h
+          cases hpd : pd (trimSpace w) with
+          | none => simp [hpd] at h
+          | some c =>
+            simp [hpd] at h
+            exact ⟨⟨v, rfl, h.1.symm⟩, by rw [← h.1]; simpa using he, Or.inr ⟨w, rfl, Or.inr ⟨by simpa using hw, by first | exact hpd | exact h.2 ▸ hpd⟩⟩⟩
+
+/-- the regenerated call site of the inbound connection lookup means what the model's `attach` tests: peer ID AND node DID
+    (dropping `ByNodeDID` would let a stream without identity join an authenticated connection announcing its peer ID) -/
+theorem fact_inbound_lookup_is_model (c : Conn) (id did : String) :
+    connMatches (Facts.C15.inboundConnectionLookup.map LookupKey.ofSource) c id did = (c.id == id && c.peer.did == did) := by
+  have : Facts.C15.inboundConnectionLookup.map LookupKey.ofSource = [.peerID, .nodeDID] := by decide
+  rw [this]
+  simp [connMatches]
+
+/-- `connectionList.get`: a mismatching predicate skips the connection, the first full match is returned; the two identity
+    predicates compare `conn.Peer().ID` / `conn.Peer().NodeDID`; `registerStream` refuses a second stream of a protocol -/
+theorem fact_connection_get_and_predicates :
+    Facts.C15.connectionGetShape = ["if len(query) == 0 { return nil }", "return nil", "if !predicate.Match(curr) { continue outer }", "return curr", "return nil"] ∧
+    Facts.C15.identityPredicates = ["nodeDIDPredicate: { return conn.Peer().NodeDID.Equals(predicate.nodeDID) }", "peerIDPredicate: { return conn.Peer().ID == predicate.peerID }"] ∧
+    Facts.C15.registerStreamGuard = "mc.streams[methodName] != nil => { return false }" := by decide
+
+/-- `handleInboundStream`: metadata, certificate of THIS stream, authentication, and only then lookup / registration; the peer
+    handed to `authenticate` carries no node DID and no authenticated flag of its own -/
+theorem fact_inbound_stream_order :
+    Facts.C15.inboundStreamCalls = ["readMetadata(md)", "extractCertificate(peerFromCtx)", "s.authenticate(nodeDID, peer)",
+      "s.connections.getOrRegister(s.ctx, peer, false)", "connection.registerStream(protocol, wrappedStream)",
+      "connection.waitUntilDisconnected()", "s.connections.remove(connection)"] ∧
+    Facts.C15.inboundPeerLiteral = ["ID=peerID", "Address=peerFromCtx.Addr.String()", "Certificate=extractCertificate(peerFromCtx)"] := by decide
+
+/-- `readMetadata`: peer ID required, node DID optional, more than one value refused, a single value trimmed -/
+theorem fact_read_metadata_shape :
+    Facts.C15.readMetadataValCalls = ["peerIDHeader,true", "nodeDIDHeader,false"] ∧
+    Facts.C15.readMetadataShape = ["if len(values) == 0", "if !required", "ok \"\"", "err", "if len(values) > 1", "err",
+      "ok strings.TrimSpace(values[0])", "top-if peerIDStr == \"\"", "top-if nodeDIDStr != \"\""] := by decide
+
+def exAuthEnv : AuthEnv := { parseHost := fun ep => some ep, verifyHostname := fun dns h => dns.contains h }
+def exE : InEnv := ⟨.tls, exAuthEnv, fun d => some d, fun d => if d = "did:nuts:v" then some "v.example" else none⟩
+
+example : (runEvs exE [] [.open_ ⟨0, ["P1"], ["did:nuts:v"], some ["v.example"], "p1"⟩, .open_ ⟨1, ["P1"], [], some ["x.example"], "p2"⟩,
+    .open_ ⟨2, ["P1"], ["did:nuts:v"], some ["x.example"], "p2"⟩, .open_ ⟨3, ["P1"], ["did:nuts:v"], some ["v.example"], "p2"⟩]).map
+    (fun c => (c.peer.authenticated, c.streams.map (·.sid))) = [(true, [0, 3]), (false, [1])] := by decide
 
 end Nuts.C15.Props
